@@ -29,6 +29,12 @@ type writerState struct {
 	ops []Op
 	cur int      // index of the op being executed
 	rec *stepRec // LWrite record of the current upd / del
+	// pending: the writer was released into its next operation; the LWrite label is
+	// emitted when the operation shows its first effect (announcement or return), which
+	// is the same step unless the writer had to wait for another writer of the target
+	pending bool
+	res     []string   // result class per operation, written by the writer goroutine
+	recs    []*stepRec // LWrite record per operation (nil for reset)
 }
 
 // hookMu guards the package-level hook dispatch (one run at a time).
@@ -120,6 +126,11 @@ func runSched(cs *Case, decide func(ready []string, k int) int) (*runS, *Obs) {
 		p, _, reset := notiPath(n)
 		t.Stop("feed", feedInfo{p: p, reset: reset})
 	}
+	r.e.afterFeed = func(*ctree.Leaf) {
+		if t := r.sc.Self(); t != nil {
+			t.Stop("fed", nil)
+		}
+	}
 	for i, sc := range cs.Subs {
 		st := newStream(i, sc)
 		st.onSend = func(s *memStream, o Resp) error {
@@ -149,15 +160,14 @@ func runSched(cs *Case, decide func(ready []string, k int) int) (*runS, *Obs) {
 		if len(ws.ops) == 0 {
 			continue
 		}
+		ws.res = make([]string, len(ws.ops))
+		ws.recs = make([]*stepRec, len(ws.ops))
 		r.sc.Spawn(w, fmt.Sprintf("w%d", w), len(ws.ops), func(t *Thread) {
 			for i, o := range ws.ops {
 				if i > 0 {
 					t.Stop("op", nil)
 				}
-				res := r.e.apply(o)
-				if ws.rec != nil {
-					ws.rec.res = res
-				}
+				ws.res[i] = r.e.apply(o)
 			}
 		})
 	}
@@ -203,6 +213,13 @@ func runSched(cs *Case, decide func(ready []string, k int) int) (*runS, *Obs) {
 		}
 	}
 
+	for _, ws := range r.ws {
+		for i, rec := range ws.recs {
+			if rec != nil {
+				rec.res = ws.res[i]
+			}
+		}
+	}
 	// quiescent?
 	for _, t := range r.sc.threads() {
 		if t.status == stParked && r.bad == "" {
@@ -248,6 +265,9 @@ func (r *runS) release(t *Thread) {
 		if t.LastKind == "feed" {
 			r.emit(&stepRec{kind: "feed", w: idx})
 			r.trace = append(r.trace, fmt.Sprintf("w%d feed", idx))
+		} else if t.LastKind == "fed" {
+			// the announcement returned; the writer goes on to its next tree write or returns
+			r.trace = append(r.trace, fmt.Sprintf("w%d fed", idx))
 		} else {
 			// start of the next operation
 			if t.LastKind == "op" {
@@ -255,9 +275,7 @@ func (r *runS) release(t *Thread) {
 			}
 			o := ws.ops[ws.cur]
 			ws.rec = nil
-			if o.K != "reset" {
-				ws.rec = r.emit(&stepRec{kind: "write", w: idx, op: o})
-			}
+			ws.pending = true
 			r.trace = append(r.trace, o.String())
 		}
 	case 's':
@@ -285,6 +303,15 @@ func (r *runS) release(t *Thread) {
 	for _, ev := range r.sc.Step(t) {
 		x := ev.T
 		xi := x.ID % 100
+		if x.Name[0] == 'w' && ev.Kind != "blocked" && ev.Kind != "hang" && r.ws[xi].pending {
+			// first effect of the operation the writer was released into
+			ws := r.ws[xi]
+			ws.pending = false
+			if o := ws.ops[ws.cur]; o.K != "reset" {
+				ws.rec = r.emit(&stepRec{kind: "write", w: xi, op: o})
+				ws.recs[ws.cur] = ws.rec
+			}
+		}
 		switch {
 		case ev.Kind == "hang" || ev.Kind == "panic":
 			r.bad = fmt.Sprintf("%s %s %v", x.Name, ev.Kind, ev.Val)
@@ -376,6 +403,7 @@ func runFree(cs *Case) *Obs {
 	modeA.Store(ra)
 	defer modeA.Store(nil)
 	e.feedHook = func(*ctree.Leaf) { delay() }
+	e.afterFeed = func(*ctree.Leaf) { delay() }
 
 	var wg sync.WaitGroup
 	var emu sync.Mutex
